@@ -8,6 +8,7 @@ operation starts so that a SIGBUS is attributed to its operation:
   PRED <id> <k> <what> sig=<signature> | END <id>
 Result tokens are those of the model driver (coq/C09/driver.ml).
 """
+import errno
 import json
 import mmap as _mmap
 import os
@@ -19,6 +20,8 @@ import numpy as np
 warnings.simplefilter('ignore')
 import nibabel as nib  # noqa: E402
 from nibabel.freesurfer import MGHImage  # noqa: E402
+from nibabel.arraywriters import WriterError  # noqa: E402
+from nibabel.filebasedimages import ImageFileError  # noqa: E402
 
 KLASS = {'N': nib.Nifti1Image, 'P': nib.Nifti1Pair, 'M': MGHImage, 'A': nib.Spm2AnalyzeImage}
 FULL_EXT = {'N': ('.nii',), 'P': ('.img', '.hdr'), 'M': ('.mgh',), 'A': ('.img', '.hdr', '.mat')}
@@ -126,22 +129,45 @@ def mapped_file(arr):
     return None
 
 
-def classify(e):
-    m = str(e)
-    if isinstance(e, FileNotFoundError) or (type(e).__name__ == 'ImageFileError' and 'not a file' in m.lower()):
-        return 'ref:nofile'
-    if isinstance(e, OSError) and e.errno == 28:
+def readable(img):
+    """Observable state: can the image's data be read at all?  (A proxy whose file no longer holds what its header
+    copy says raises on every read; an in-memory array is just there.)"""
+    try:
+        np.asanyarray(img.dataobj)
+        return True
+    except Exception:
+        return False
+
+
+def classify(e, kind, img, name_exists=True):
+    """Refusal class of an exception, from its TYPE, the operation and observable state only - never from its text."""
+    if kind == 'L':
+        return 'ref:nofile' if not name_exists else 'ref:other:' + type(e).__name__
+    if isinstance(e, OSError) and e.errno == errno.ENOSPC:
         return 'ref:nospace'
-    if type(e).__name__ == 'WriterError':
+    if isinstance(e, WriterError):
         return 'ref:writer'
-    if type(e).__name__ == 'ImageFileError' and 'does not look right' in m:
-        return 'ref:class'
-    if (isinstance(e, OSError) and 'Expected' in m) or (isinstance(e, ValueError) and 'not enough data' in m) \
-            or isinstance(e, EOFError):
-        return 'ref:short_read'
-    if isinstance(e, (NotImplementedError, AttributeError)):
+    if kind == 'B' and isinstance(e, (NotImplementedError, AttributeError)):
         return 'ref:not_serializable'
-    return 'ref:other:' + type(e).__name__ + ':' + m[:60].replace(' ', '_').replace('\n', '_')
+    if kind == 'T' and isinstance(e, ImageFileError):
+        return 'ref:class'            # the name does not belong to the image's class: raised before anything is touched
+    if img is not None and not readable(img):
+        return 'ref:short_read'       # the data cannot be read: the operation fails before any target is opened
+    return 'ref:other:' + type(e).__name__
+
+
+_MISSING = object()
+
+
+def cached_array(img):
+    """The array get_fdata() has cached, without changing the image: the private attribute when it exists, else the
+    public observations (in_memory says whether a cache is full; get_fdata(caching='unchanged') returns it by identity)."""
+    c = getattr(img, '_fdata_cache', _MISSING)
+    if c is not _MISSING:
+        return c
+    if isinstance(img.dataobj, np.ndarray) or not img.in_memory:
+        return None
+    return img.get_fdata(caching='unchanged')
 
 
 def same_file(a, b):
@@ -211,8 +237,8 @@ def run_history(h, workdir):
         s = int(tok[1])
         img = imgs[s] if s < len(imgs) else None
         extra = ''
-        if kind == 'F' and img is not None and getattr(img, '_fdata_cache', None) is not None:
-            mf = mapped_file(img._fdata_cache)
+        if kind == 'F' and img is not None and cached_array(img) is not None:
+            mf = mapped_file(cached_array(img))
             if mf is not None:
                 f, cnt = fill.get(s, (file_key(mf), 0))
                 since = saves.get(f, [])[cnt:]
@@ -241,7 +267,7 @@ def run_history(h, workdir):
             elif img is None:
                 res = 'ref:noimage'
             elif kind == 'F':
-                had = img._fdata_cache is not None
+                had = cached_array(img) is not None
                 dat = img.get_fdata()
                 if not had:
                     mf = mapped_file(dat)
@@ -273,7 +299,7 @@ def run_history(h, workdir):
                     nib.save(img, 'full' + FULL_EXT[fmt][0])
                     res = 'ref:other:no_error_from_dev_full'
                 except OSError as e:
-                    res = 'ref:nospace' if e.errno == 28 else classify(e)
+                    res = classify(e, kind, img)
                 try:
                     post = np.asanyarray(img.dataobj)
                     if post.shape != pre.shape or not np.array_equal(post, pre):
@@ -307,7 +333,7 @@ def run_history(h, workdir):
                 else:
                     built.pop(s2, None)
                 if tok[3] == 'f':
-                    mfc = mapped_file(img._fdata_cache) if img._fdata_cache is not None else None
+                    mfc = mapped_file(cached_array(img)) if cached_array(img) is not None else None
                     if mfc is not None and s not in fill:
                         fill[s] = (file_key(mfc), len(saves.get(file_key(mfc), [])))
                 res = 'done'
@@ -408,7 +434,7 @@ def run_history(h, workdir):
             else:
                 res = 'ref:other:badop'
         except Exception as e:
-            res = classify(e)
+            res = classify(e, kind, img, name_exists=(kind != 'L' or os.path.exists(names[int(tok[2])])))
         print('RES', hid, k, res, flush=True)
     print('END', hid, flush=True)
 
